@@ -497,6 +497,23 @@ def run(ctx):
                 else:
                     r.fail(fi, c, norm(c), "%s changes the indentation without a 'with' scope: it is never restored" % fi.short)
 
+    # ---------------------------------------------------------------- R10
+    r = ctx.rule("C11-R10", "SIBLING", "'the decorated rendering with its escape sequences stripped and the tag-stripped text are the same string' needs one notion of what a tag is: in every "
+                 "formatter of the pastel family remove_format interprets the text with the same engine call as format (colorize), only with colour switched off - not with a "
+                 "pattern of its own (an unknown tag such as <src> is text for the engine)", reference=2)
+    for cls in (ansi, plain):
+        fmt_m, rm_m = cls.methods.get("format"), cls.methods.get("remove_format")
+        if fmt_m is None or rm_m is None:
+            continue
+        def engine_calls(m_):
+            return sorted({c.func.attr for c in q.calls(m_) if isinstance(c.func, ast.Attribute) and is_self_attr(c.func.value) and c.func.attr not in ("colorized",)})
+        a_, b_ = engine_calls(fmt_m), engine_calls(rm_m)
+        if a_ and a_ == b_:
+            r.ok("%s: format and remove_format both go through %s" % (cls.name, ", ".join(a_)))
+        else:
+            r.fail(rm_m, rm_m.node, "%s.remove_format %s vs format %s" % (cls.name, b_ or "no engine call", a_), "%s.remove_format does not strip with the engine that format renders with (%s vs %s): text that "
+                   "looks like a tag but is none is printed by one and removed by the other - widths measured on the stripped text (section rows, table cells) no longer match what is printed" % (cls.name, b_ or "own pattern", a_))
+
     # ---------------------------------------------------------------- R9
     r = ctx.rule("C11-R9", "SIBLING", "'the markup of a registered style' is known to whichever formatter a run gets: every formatter the I/O factory of the default "
                  "configuration builds receives the application's style set (all arms: --ansi, --no-ansi, capable / incapable stream, both channels)", reference=6)
